@@ -6,6 +6,7 @@ from .c14 import values_equal
 from mirsym import strings
 from oracle.langs import LANGS, CORE_WORDS
 
+EN_SMALL = ['zero', 'one', 'twenty', 'hundred', 'million', 'and', 'point', 'first', 'o', 'xyz', 'ah']
 WS_RUNS = [chr(c) for c in strings.WHITE_SPACE] + ['  ', ' \t', '\n ', '  ', '\r\n', '  ']
 
 
@@ -16,6 +17,10 @@ def worker(ck: Check, job):
     k = 2 if quick else 3
     reps, classes = stream_alphabet(ck, code, True)
     reps = [r for r in reps if H._wordlike(r)]
+    if code == 'en' and quick:
+        # English forks its ambiguity annotator on every neighbour of 'o': the whitespace question does not need the whole
+        # alphabet, so the quick tier keeps one word per role
+        reps = [r for r in reps if r in EN_SMALL]
     w = [z3.BitVec('t_w%d' % i, 16) for i in range(k)]
     s = [z3.BitVec('t_ws%d' % i, 8) for i in range(k + 1)]
     assm = [z3.ULT(x, len(reps)) for x in w] + [z3.ULT(x, len(WS_RUNS)) for x in s]
